@@ -97,6 +97,14 @@ func c13HTML(s *tgScn, variant int) string {
 		st += fmt.Sprintf("width:%dpx;", s.Opts.Tw)
 	}
 	fmt.Fprintf(&b, `<table style="%s">`, st)
+	if variant&4 != 0 {
+		// column boxes with a background, one more than the rows have columns (a column in which no cell originates)
+		b.WriteString(`<colgroup style="background:#dde">`)
+		for k := 0; k <= s.Gridw; k++ {
+			b.WriteString(`<col style="background:#eed">`)
+		}
+		b.WriteString(`</colgroup>`)
+	}
 	switch s.Opts.Cap {
 	case 1:
 		b.WriteString(`<caption style="caption-side:top">cap</caption>`)
